@@ -2,29 +2,32 @@
 # prints the prompt given to a mutant-seeding sub-agent for one property
 import json,sys
 pid=sys.argv[1]
+sfx=sys.argv[2] if len(sys.argv)>2 else ''
+hint=sys.argv[3] if len(sys.argv)>3 else ''
 for l in open('/verif/properties.jsonl'):
     p=json.loads(l)
     if p['id']==pid: break
 else: sys.exit('no such property')
+wid=pid+sfx
 txt=json.dumps({k:p[k] for k in ('id','title','statement','quantifier','why_tests_cant','anchors')},indent=1)
 print(f"""You are helping test a verification effort for the Go protobuf library (protocolbuffers/protobuf-go).
-You have your own scratch git worktree of the repository at /tmp/seed/{pid} (a detached checkout; work ONLY there, never touch /repo or /verif, and do not read anything under /verif).
+You have your own scratch git worktree of the repository at /tmp/seed/{wid} (a detached checkout; work ONLY there, never touch /repo or /verif, and do not read anything under /verif).
 There is no network. Use: export GOFLAGS=-mod=mod GOPROXY=off GOSUMDB=off GOTOOLCHAIN=local  (go 1.23.5 is installed).
 
 Here is a semantic property the library is supposed to satisfy:
 
 {txt}
 
-TASK: craft ONE small, realistic source change (a plausible bug a maintainer could introduce: off-by-one, wrong constant, missing check, wrong branch, two cooperating edits that each look fine alone, etc.) to the library's non-test Go code in /tmp/seed/{pid} such that:
+TASK: craft ONE small, realistic source change (a plausible bug a maintainer could introduce: off-by-one, wrong constant, missing check, wrong branch, two cooperating edits that each look fine alone, etc.) to the library's non-test Go code in /tmp/seed/{wid} such that:
  1. the library still compiles (go build ./... and go vet-free `go test -vet=off -run '^$' ./...`),
- 2. the EXISTING test suite still passes with the change: at minimum run `go test -vet=off -count=1 ./...` from /tmp/seed/{pid} for the root module (it takes a few minutes; you may first run only the packages near your change, but finish with the whole root module) — if any existing test fails, pick a different change,
+ 2. the EXISTING test suite still passes with the change: at minimum run `go test -vet=off -count=1 ./...` from /tmp/seed/{wid} for the root module (it takes a few minutes; you may first run only the packages near your change, but finish with the whole root module) — if any existing test fails, pick a different change,
  3. the change BREAKS the property above, but only for something specific: an unusual input, a boundary value, a multi-step sequence, a particular length or bit pattern — NOT something that ordinary use would expose at once,
- 4. you provide a demonstration: a new Go test file (name it zz_seed_demo_test.go, placed in the appropriate package dir of the worktree) with a test `TestSeedDemo` that FAILS with your change applied and PASSES on the unmodified code. Verify both directions yourself (use `git diff > /tmp/seedout/'{pid}'/my.diff; git apply -R ...` — do NOT use `git stash`: the stash is shared between worktrees and other agents are working concurrently).
+ 4. you provide a demonstration: a new Go test file (name it zz_seed_demo_test.go, placed in the appropriate package dir of the worktree) with a test `TestSeedDemo` that FAILS with your change applied and PASSES on the unmodified code. Verify both directions yourself (use `git diff > /tmp/seedout/'{wid}'/my.diff; git apply -R ...` — do NOT use `git stash`: the stash is shared between worktrees and other agents are working concurrently).
 
-Do not modify existing tests. Do not modify generated *.pb.go files (exception: the hand-maintained helper methods inside types/known/*/*.pb.go such as New, AsDuration, AsTime, check, CheckValid may be changed). Keep the change minimal (typically 1-5 lines). Prefer a change inside the code the property's anchors name.
+Do not modify existing tests. Do not modify generated *.pb.go files (exception: the hand-maintained helper methods inside types/known/*/*.pb.go such as New, AsDuration, AsTime, check, CheckValid may be changed). Keep the change minimal (typically 1-5 lines). Prefer a change inside the code the property's anchors name. {hint}
 
 DELIVERABLES (write these files):
- - /tmp/seedout/{pid}/patch.diff : output of `git diff` for the library change ONLY (without the demo test), applicable with `git apply` at the repo root
- - /tmp/seedout/{pid}/zz_seed_demo_test.go : the demonstration test, plus a first-line comment `// package-dir: <repo-relative dir>` telling where it goes
- - /tmp/seedout/{pid}/notes.md : what the change is, what specific input/sequence is needed to manifest it, and exactly which commands you ran (with their outcomes) to confirm: build ok, existing tests pass with the change, demo fails with the change, demo passes without it.
+ - /tmp/seedout/{wid}/patch.diff : output of `git diff` for the library change ONLY (without the demo test), applicable with `git apply` at the repo root
+ - /tmp/seedout/{wid}/zz_seed_demo_test.go : the demonstration test, plus a first-line comment `// package-dir: <repo-relative dir>` telling where it goes
+ - /tmp/seedout/{wid}/notes.md : what the change is, what specific input/sequence is needed to manifest it, and exactly which commands you ran (with their outcomes) to confirm: build ok, existing tests pass with the change, demo fails with the change, demo passes without it.
 Leave the worktree with your change applied (uncommitted). Your final answer should be a 5-line summary.""")
